@@ -113,7 +113,7 @@ func blockerFrameName(t string) string {
 
 // Case is one program of the space (JSON: the replay contract).
 type Case struct {
-	Family string   `json:"family"`        // tail | blocked | transparency-only | multiform | sequence | chain | closure | forward
+	Family string   `json:"family"`        // tail | blocked | transparency-only | multiform | sequence | chain | closure | forward | entry
 	Def    string   `json:"def,omitempty"` // "" (top-level defun) | labels (the loop is a set of labels-bound closures)
 	Shape  []string `json:"shape"`         // outermost first
 	Topo   int      `json:"topo"`          // cycle length 1..3
@@ -144,6 +144,14 @@ type Case struct {
 	// forward family only: the recursive call is made THROUGH a call-forwarding
 	// builtin passed as the target of funcall/apply (see forwardForms).
 	Forward string `json:"forward,omitempty"`
+	// entry family only: the loop functions are DEFINED through one host entry
+	// point under one context and RUN through another entry point under
+	// another context (see entry.go).
+	DefEntry string `json:"def_entry,omitempty"` // load-string | load-program | eval
+	DefCtx   string `json:"def_ctx,omitempty"`   // none | A | A-cancelled
+	RunEntry string `json:"run_entry,omitempty"` // load-string | load-program | eval | funcall
+	RunCtx   string `json:"run_ctx,omitempty"`   // none | same | other | background
+	Root     string `json:"root,omitempty"`      // "" | with-context (lisp.WithContext on the root environment)
 	// chain family only: Chain names the explored dimension for the class,
 	// "nest:<token>" (Shape is <token> repeated d times, or the 15 positions in
 	// rotation for "mixed") or "ring:<wrapper>" (Topo functions in a ring, each
@@ -178,6 +186,15 @@ func (c Case) tokens() []string {
 	}
 	if c.Family == "forward" {
 		t = append(t, "FWD-"+c.Forward)
+	}
+	if c.Family == "entry" {
+		// the class names the relation between the two contexts (and whether the
+		// root environment carries one), not the entry points
+		s := "ENTRY-def:" + c.DefCtx + "/run:" + c.RunCtx
+		if c.Root != "" {
+			s += "/root:" + c.Root
+		}
+		t = append(t, s)
 	}
 	return append(t, c.Shape...)
 }
@@ -765,6 +782,10 @@ func optsOf(c Case) runOpts {
 		// a loop of <= 100 turns is far below this; it only keeps a broken
 		// evaluator's runaway continuation from spinning for a million turns
 		return runOpts{Limit: closureTailLimit}
+	}
+	if c.Family == "entry" {
+		return runOpts{Entry: &entrySpec{DefEntry: c.DefEntry, DefCtx: c.DefCtx, RunEntry: c.RunEntry, RunCtx: c.RunCtx,
+			Root: c.Root, Args: []int{c.N, 0}}}
 	}
 	if c.Family != "sequence" {
 		return runOpts{}
